@@ -150,6 +150,35 @@ def r4_initialization(ctx):
         good = ex is not None and r[0] == "call" and r[1] == "mahf::components::initialization::initialization" and len(list(ex.body.calls())) == 1
         ctx.check(good, "C14.R4", f.impl_self_adt, "executes-through-driver", "execute() is not exactly initialization(self, problem, state)", loc=(ex or f).loc())
     FU = "mahf::components::initialization::functional::"
+    # the components' initialize(): the requested number of solutions of the PROBLEM's dimension (the generators below are
+    # inlined, so swapped / wrong arguments show in the shape of what comes out)
+    for f in impls:
+        a = F.adt(f.impl_self_adt)
+        fields = {x["name"]: x["i"] for x in a["variants"][0]["fields"]}
+        bad = []
+        for dim, size in ((3, 2), (1, 3), (2, 0), (0, 2)):
+            me = Sym("self", {fields["population_size"]: size, **({fields["p"]: 0.5} if "p" in fields else {})})
+            doms = tuple(Agg("adt", "core::ops::range::Range", "Range", [float(10 * k), float(10 * k + 1)]) for k in range(dim))
+
+            def gen_range2(interp, env, f_, args):
+                r = load(interp, env, args[1])
+                return Sym("x in [%s,%s)" % (r.fields[0], r.fields[1])) if isinstance(r, Agg) and len(r.fields) >= 2 else TOP
+            table = {"mahf::problems::VectorProblem::dimension": dim, "mahf::problems::LimitedVectorProblem::domain": Vec("dom"), "rand::rng::Rng::gen_range": gen_range2,
+                     "rand::rng::Rng::sample_iter": Agg("repeat", None, None, [Sym("bit")]), "rand::distributions::distribution::Distribution::sample_iter": Agg("repeat", None, None, [Sym("bit")]),
+                     "rand::distributions::distribution::Distribution::sample": Sym("bit"), "rand::rng::Rng::sample": Sym("bit"), "rand::rng::Rng::gen_bool": Sym("bit"),
+                     "rand::distributions::bernoulli::Bernoulli::new": ok(Sym("bernoulli"))}
+            it = install(Interp(f.body, chain(mk_oracle(table), coll_oracle, std_oracle), [me, Sym("problem"), Sym("rng")], facts=F,
+                                inline=lambda k: k.startswith(FU) or k.startswith("mahf::components::initialization::") or k.startswith("<mahf::components::initialization::"), max_visits=14))
+            it.init_state = {"heap": {"dom": doms}, "next_vec": 0}
+            for p in it.run():
+                r = p.ret
+                if p.end != "return" or not isinstance(r, Vec):
+                    bad.append((dim, size, "%s %s" % (p.end, r)))
+                    continue
+                lens = [len(p.mstate["heap"].get(s_.vid, ())) if isinstance(s_, Vec) else -1 for s_ in p.mstate["heap"].get(r.vid, ())]
+                if lens != [dim] * size:
+                    bad.append((dim, size, "yields solutions of lengths %s, expected %d solutions of length %d" % (lens, size, dim)))
+        ctx.check(not bad, "C14.R4", f.key, "requested-number-of-problem-dimension", "problem dimension %s, population_size %s: initialize %s" % (bad[0] if bad else ("", "", "")), loc=f.loc())
     # random_spread
     fn = F.fn(FU + "random_spread")
     bad = []
